@@ -250,10 +250,35 @@ def rules(ctx):
                  "selects the terms by key length" if ok else
                  "%s.%s does not select exactly the terms `if %s`" % (cname, prop, want_if))
 
+    # qubo_to_matrix reads a canonical QUBOMatrix (redundant keys of a plain dict accumulate first)
+    qm = P.func('_qubomatrix.qubo_to_matrix')
+    gq = cfg_of(qm.node)
+    qp = qm.params[0]
+    canon_assign = [n for n in gq.stmts() if isinstance(n, ast.Assign) and is_name(n.targets[0], qp)
+                    and isinstance(n.value, ast.Call) and src(n.value.func).split('.')[-1] == 'QUBOMatrix']
+    loops = [n for n in gq.stmts() if isinstance(n, ast.For) and src(n.iter) == '%s.items()' % qp]
+    okq = bool(loops)
+    for lp in loops:
+        # every path to the fill loop either passes the canonicalising copy or knows isinstance(Q, QUBOMatrix)
+        for path in gq.paths(ENTRY, (lp,), limit=200):
+            nodes = [n for n, lab in path]
+            facts = []
+            for n, lab in path:
+                if lab and lab[0] not in ('iter', 'exc'):
+                    facts += compare_atoms(lab[0], lab[1])
+            if not (any(c in nodes for c in canon_assign) or ('truthy', 'isinstance(%s, QUBOMatrix)' % qp) in facts):
+                okq = False
+    ctx.inst('R04.8', qm, loops[0] if loops else 'fill loop', okq,
+             "the matrix is filled from a canonical QUBOMatrix" if okq else
+             "qubo_to_matrix can fill the matrix from a raw dict: keys naming the same monomial ((0,1)/(1,0), (0,)/(0,0)) "
+             "overwrite each other instead of accumulating")
+
     # ---------------------------------------------------------------- R04.9
-    from .C14 import registration_parity, refresh_order
+    from .C14 import registration_parity, refresh_order, who_may_write, inverse_pairs, G1
     registration_parity(ctx, 'R04.9')
     refresh_order(ctx, 'R04.9')
+    who_may_write(ctx, 'R04.9', G1)
+    inverse_pairs(ctx, 'R04.9')
     for cname_ in ('QUBO', 'QUSO'):
         f_ = P.func('%s.convert_solution' % cname_)
         sn = R.self_name(f_)
